@@ -127,6 +127,13 @@ class ArithHooks(Hooks):
 
     def before(self, it, i, ev):
         self.snap = self._snapshot(it)
+        # premise gate: a float sampling is a number in the left operand's unit as the generator knew it
+        lu = ev.get('t', {}).get('left_unit')
+        if lu is not None and isinstance(ev.get('k', {}).get('sampling'), float):
+            a = it.resolve(ev['a'][0])
+            if getattr(a, 'waveunit', lu) != lu:
+                it.probe('float_sampling_unit_premise_failed')
+                return False
 
     def after(self, it, i, ev, out):
         fn = ev['fn']
@@ -372,6 +379,9 @@ class SpectrumArithScenario(Scenario):
             if samp == 'float':
                 # a float sampling is expressed in the left operand's current unit, which only the owner (caller 0) knows
                 samp = rng.choice([1.3, 2.7, 4.1]) * factor('nm', a['unit']) if c == 0 else 'min'
+            tt = {'expect': 'ok'}
+            if isinstance(samp, float):
+                tt['left_unit'] = a['unit']
             if samp is not None:
                 k['sampling'] = samp
             if rng.random() < 0.3:
@@ -381,7 +391,7 @@ class SpectrumArithScenario(Scenario):
             if rng.random() < 0.3:
                 k['fill_value'] = rng.choice([0, 1, 0.5])
             if k or rng.random() < 0.5:
-                return E('Spectrum.' + opname, ['@' + a['id'], '@' + b['id']], k, t={'expect': 'ok'})
+                return E('Spectrum.' + opname, ['@' + a['id'], '@' + b['id']], k, t=tt)
             sym = [s for s, o in DUNDER.items() if o == opname][0]
             return E(sym, ['@' + a['id'], '@' + b['id']], t={'expect': 'ok'})
 
@@ -401,7 +411,10 @@ class SpectrumArithScenario(Scenario):
                     if e['fn'] in DUNDER:
                         E(e['fn'], [e['a'][1], e['a'][0]], t={'expect': 'ok'})
                     else:
-                        E(e['fn'], [e['a'][1], e['a'][0]], k2, t={'expect': 'ok'})
+                        t2 = {'expect': 'ok'}
+                        if isinstance(k2.get('sampling'), float):
+                            t2['left_unit'] = b['unit']
+                        E(e['fn'], [e['a'][1], e['a'][0]], k2, t=t2)
             elif r < 0.5:
                 s = rng.choice(pool)
                 opname = rng.choice(list(OPS))
